@@ -18,13 +18,16 @@ UNITS_DEC = ["0.1", "0.1", "0.01", "0.3", "0.7", "0.025", "0.0025", "2.5", "7", 
 
 
 @st.composite
-def die_case(draw, max_regions=8, max_fixed=3, min_side=1, max_side=12, units=None, allow_fixed=True):
+def die_case(draw, max_regions=8, max_fixed=3, min_side=1, max_side=12, units=None, allow_fixed=True, force_fixed=False):
     unit = draw(st.sampled_from(units or (UNITS_EXACT + UNITS_DEC)))
     W = draw(_i(min_side, max_side))
     H = draw(_i(min_side, max_side))
     nreg = draw(_i(0, max_regions))
     pack = draw(L.packing(W, H, 0, nreg + (max_fixed if allow_fixed else 0), max_side=max(2, max(W, H) // 2 + 1)))
-    nfix = draw(_i(0, min(max_fixed, len(pack)))) if allow_fixed and draw(_i(0, 2)) == 0 else 0
+    if force_fixed and pack:
+        nfix = draw(_i(1, min(max_fixed, len(pack))))
+    else:
+        nfix = draw(_i(0, min(max_fixed, len(pack)))) if allow_fixed and draw(_i(0, 2)) == 0 else 0
     fixed_rects = pack[:nfix]
     regions = [r + [draw(st.sampled_from(TAGS))] for r in pack[nfix:]]
     # group fixed rectangles into modules (1-2 rectangles each)
